@@ -64,6 +64,13 @@ func (v *Vue) evalInclude(ctx VueContext, node *html.Node, vars map[string]any, 
 
 	childCtx := ctx.WithTemplate(name)
 
+	// A leading <template> that carries v-if or v-for is an ordinary conditional or
+	// loop, not the component's root wrapper: it is evaluated like anywhere else.
+	if len(compDom) > 0 && compDom[0].Type == html.ElementNode && compDom[0].Data == "template" &&
+		(helpers.HasAttr(compDom[0], "v-if") || helpers.HasAttr(compDom[0], "v-for")) {
+		return v.evaluate(childCtx, compDom, depth+1)
+	}
+
 	// Validate and process template tag
 	processedDom, err := v.evalTemplate(childCtx, compDom, ctx.stack.EnvMap(), depth+1)
 	if err != nil {
